@@ -242,19 +242,53 @@ def r6_autoref(ctx):
 
 
 def r7_membership(ctx):
+    """validate_options as: no options -> accept; some option equal to the value -> accept; none -> error.  The
+    quantifier over the options may be a first-match loop with for-else or `any(...)`; both are read from resolved paths."""
+    from ..flowexpr import consistent, explore
+    from ..model import cnorm
     fn = ctx.fn(SEL, "SelectNode.validate_options")
-    top = [s for s in K.body_nodoc(fn) if isinstance(s, ast.If)]
-    if len(top) != 1 or norm(top[0].test) != "self.options":
-        ctx.unrecognised(SEL, "SelectNode.validate_options", "shape", "if self.options: ... else: return True not found")
-        return
-    loops = [l for l in top[0].body if isinstance(l, ast.For) and norm(l.iter) == "self.options"]
-    ok = len(loops) == 1 and loops[0].orelse and any(isinstance(r, ast.Raise) for r in loops[0].orelse)
-    ctx.check(ok, SEL, "SelectNode.validate_options", "exhausting the option list without a match is an error (for...else raise)")
+    nm = "SelectNode.validate_options"
+    ex = explore(fn)
+    EQ = ("_c0.value == self.value", "self.value == _c0.value")
+    any_txt = [f"any(({e} for _c0 in self.options))" for e in EQ] + [f"any([{e} for _c0 in self.options])" for e in EQ]
+
+    def outcome(qs):
+        return sorted({"raise" if q.status == "raise" else norm(next((e.resolved for e in q.events if e.kind == "return"), None)) for q in qs})
+    # no options
+    cs, unk = consistent(ex.paths, lambda e: False if norm(e) == "self.options" else (True if cnorm(e) in any_txt else None))
+    loops = [v for v in ex.iterations.values() if isinstance(v[0], ast.For) and norm(v[0].iter) == "self.options"]
     if loops:
-        acc = [i for i in loops[0].body if isinstance(i, ast.If)]
-        ok = len(acc) == 1 and norm(acc[0].test) in ("option.value == self.value", "self.value == option.value") and [norm(x) for x in acc[0].body] == ["return True"]
-        ctx.check(ok, SEL, "SelectNode.validate_options", "the first option equal to the value accepts", detail=[norm(a.test) for a in acc])
-    ctx.check([norm(x) for x in top[0].orelse] == ["return True"], SEL, "SelectNode.validate_options", "a node without options accepts any value")
+        # with a loop the function-level paths carry one representative iteration: decide the empty case on paths without loop events
+        cs = [q for q in ex.paths if not any(e.kind == "loop" for e in q.events) and any(e.kind == "test" and norm(e.resolved) == "self.options" and e.extra is False
+                                                                                    or (isinstance(e.resolved, ast.UnaryOp) and norm(e.resolved.operand) == "self.options" and e.extra is True)
+                                                                                    for e in q.events if e.kind == "test")]
+    ctx.check(bool(cs) and outcome(cs) == ["True"], SEL, nm, "a node without options accepts any value", detail=outcome(cs))
+    if loops:
+        lp, start, its = loops[0]
+        if not isinstance(lp.target, ast.Name):
+            ctx.unrecognised(SEL, nm, "option loop", "loop target")
+            return
+        o = lp.target.id + "@loop1"
+        eq = (f"{o}.value == self.value", f"self.value == {o}.value")
+        ne = (f"{o}.value != self.value", f"self.value != {o}.value")
+        hit, u1 = consistent(its, lambda e: True if norm(e) in eq else (False if norm(e) in ne else (True if norm(e) == "self.options" else None)), start)
+        miss, u2 = consistent(its, lambda e: False if norm(e) in eq else (True if norm(e) in ne else (True if norm(e) == "self.options" else None)), start)
+        if u1 or u2 or not hit or not miss:
+            ctx.unrecognised(SEL, nm, "option loop", f"tests in the loop body not recognised: {sorted(set(u1 + u2))[:2]}")
+            return
+        ctx.check(outcome(hit) == ["True"] and all(q.status in (None, "continue") for q in miss), SEL, nm, "the first option equal to the value accepts",
+                  detail={"equal": outcome(hit), "different": sorted({str(q.status) for q in miss})})
+        exhausted = [q for q in ex.paths if any(e.kind == "loop" for e in q.events) and not any(e.kind == "return" and any(e.node is x for x in ast.walk(lp)) for e in q.events)]
+        ctx.check(bool(exhausted) and all(q.status == "raise" for q in exhausted), SEL, nm, "exhausting the option list without a match is an error (for...else raise)",
+                  detail=outcome(exhausted))
+    else:
+        yes, u1 = consistent(ex.paths, lambda e: True if norm(e) == "self.options" or cnorm(e) in any_txt else None)
+        no, u2 = consistent(ex.paths, lambda e: True if norm(e) == "self.options" else (False if cnorm(e) in any_txt else None))
+        if u1 or u2 or not yes or not no:
+            ctx.unrecognised(SEL, nm, "shape", f"membership test not recognised: {sorted(set(u1 + u2))[:2]}")
+            return
+        ctx.check(outcome(yes) == ["True"], SEL, nm, "the first option equal to the value accepts", detail=outcome(yes))
+        ctx.check(outcome(no) == ["raise"], SEL, nm, "exhausting the option list without a match is an error (for...else raise)", detail=outcome(no))
 
 
 def r8_property_target(ctx):
